@@ -1133,12 +1133,76 @@ def spell_cases(jobs):
 # ---------------------------------------------------------------------------
 # C10: value-dependent methods
 # ---------------------------------------------------------------------------
+def _dep_call(vw, ov, methods, cspec):
+    from . import deprt
+    from .observe import classify, describe
+
+    names = cspec if isinstance(cspec, list) else cspec["pos"]
+    kwspec = {} if isinstance(cspec, list) else cspec.get("kw", {})
+    args = [vw.objs[n] for n in names]
+    kwargs = {k: vw.objs[n] for k, n in kwspec.items()}
+    call = {"pos": [deprt.arg_record(n) for n in names], "kwn": list(kwspec), "kwa": [deprt.arg_record(n) for n in kwspec.values()]}
+    del vw.log[:]
+    del vw.predlog[:]
+    obs = {"resolve": {"kind": "skip", "m": ""}}
+    try:
+        ov(*args, **kwargs)
+        obs["kind"] = "run"
+    except BaseException as e:  # noqa
+        obs["kind"] = classify(e)
+        obs["err"] = describe(e)
+        e.__traceback__ = None
+    ent = []
+    for j, (mid, a, kws) in enumerate(vw.log):
+        m = next(x for x in methods if x["id"] == mid)
+        nxt = m.get("body") == "next"
+        kws = {k: v for k, v in kws.items() if v is not deprt.KWDFLT}
+        c = {"pos": [vw.arg_of(x) for x in a], "kwn": list(kws), "kwa": [vw.arg_of(x) for x in kws.values()]}
+        ent.append({"m": mid, "call": c, "next": {"has": nxt, "call": c if nxt else {"pos": [], "kwn": [], "kwa": []}}})
+    obs["entered"] = ent
+    obs["predlog"] = list(vw.predlog)
+    return call, obs
+
+
+def dep_context_cases(jobs):
+    """C06 over value worlds: job = {id, call, contexts:[{name, methods, order?, again?}]}."""
+    from ovld import _verif
+
+    from . import deprt
+
+    out = []
+    for job in jobs:
+        steps = []
+        skip = None
+        for ctx in job["contexts"]:
+            vw = deprt.ValueWorld()
+            if ctx.get("order"):
+                _verif.install(order=_order_fn(ctx["order"]))
+            try:
+                ov = vw.build(ctx["methods"])
+                call, obs = _dep_call(vw, ov, ctx["methods"], job["call"])
+                if ctx.get("again"):
+                    call, obs = _dep_call(vw, ov, ctx["methods"], job["call"])
+            except Exception as e:
+                skip = f"{type(e).__name__}: {e}"
+                break
+            finally:
+                _verif.install()
+                vw.cleanup()
+            steps.append({"call": call, "methods": ctx["methods"], "ctx": ctx["name"], "obs": obs})
+        if skip:
+            out.append({"id": job["id"], "skip": skip})
+        else:
+            out.append({"id": job["id"], "props": ["C06"], "world": {"parents": deprt.PARENTS, "methods": job["contexts"][0]["methods"]},
+                        "steps": steps})
+    return out
+
+
 def dep_cases(jobs):
     """job = {id, methods, calls:[[value names]]}"""
     import linecache
 
     from . import deprt
-    from .observe import classify, describe
 
     out = []
     for job in jobs:
@@ -1150,30 +1214,7 @@ def dep_cases(jobs):
             continue
         steps = []
         for cspec in job["calls"]:
-            names = cspec if isinstance(cspec, list) else cspec["pos"]
-            kwspec = {} if isinstance(cspec, list) else cspec.get("kw", {})
-            args = [vw.objs[n] for n in names]
-            kwargs = {k: vw.objs[n] for k, n in kwspec.items()}
-            call = {"pos": [deprt.arg_record(n) for n in names], "kwn": list(kwspec), "kwa": [deprt.arg_record(n) for n in kwspec.values()]}
-            del vw.log[:]
-            del vw.predlog[:]
-            obs = {"resolve": {"kind": "skip", "m": ""}}
-            try:
-                ov(*args, **kwargs)
-                obs["kind"] = "run"
-            except BaseException as e:  # noqa
-                obs["kind"] = classify(e)
-                obs["err"] = describe(e)
-                e.__traceback__ = None
-            ent = []
-            for j, (mid, a, kws) in enumerate(vw.log):
-                m = next(x for x in job["methods"] if x["id"] == mid)
-                nxt = m.get("body") == "next"
-                kws = {k: v for k, v in kws.items() if v is not deprt.KWDFLT}
-                c = {"pos": [vw.arg_of(x) for x in a], "kwn": list(kws), "kwa": [vw.arg_of(x) for x in kws.values()]}
-                ent.append({"m": mid, "call": c, "next": {"has": nxt, "call": c if nxt else {"pos": [], "kwn": [], "kwa": []}}})
-            obs["entered"] = ent
-            obs["predlog"] = list(vw.predlog)
+            call, obs = _dep_call(vw, ov, job["methods"], cspec)
             # the emitted dispatcher source (strategy) for the evidence file
             steps.append({"call": call, "obs": obs})
         strategies = set()
